@@ -356,6 +356,18 @@ func shrinkLockerIn(in *LockerIn, fails func(*LockerIn) bool, decide func(*Locke
 				}
 			}
 		}
+		for i := len(cur.Ticks) - 1; i >= 0; i-- {
+			i := i
+			if try(func(c *LockerIn) bool {
+				if i >= len(c.Ticks) {
+					return false
+				}
+				c.Ticks = append(c.Ticks[:i:i], c.Ticks[i+1:]...)
+				return true
+			}) {
+				progress = true
+			}
+		}
 		for i := len(cur.Cancels) - 1; i >= 0; i-- {
 			i := i
 			if try(func(c *LockerIn) bool {
